@@ -176,8 +176,9 @@ def _c20_trace_kwargs():
 
 
 REPLAYS = {
-    "C17": {"coerced-entry:None": _c17_coerced("None"), "coerced-entry:numeric-string": _c17_coerced("numeric-string"),
-            "foreign-error:TriangularMesh.from_mesh:ValueError": _c17_from_mesh_valueerror},
+    # coerced-entry:None / coerced-entry:numeric-string are repaired (known_findings.json, `fixed`): make_float_array refuses entries that
+    # are not numbers; their inputs are fixed rows of the valid stream and grammar values of oracles/c17.py
+    "C17": {"foreign-error:TriangularMesh.from_mesh:ValueError": _c17_from_mesh_valueerror},
     "C02": {"mu0-literal:BaseMagnet-setters": _c02_mu0_literal, "j-indicator:TriangularMesh:ray-through-edge": _c02_ray_through_edge},
     "C15": {
         **{f"non-finite:Dipole:{variant}:{f}": _nonfinite(_dipole, [[5e-324, 0.0, 0.0], [1e-160, 1e-160, 1e-160]], f)
